@@ -155,7 +155,29 @@ class ElectronRepulsionIntegral(BaseFourIndexSymmetric):
         if not isinstance(cont_four, GeneralizedContractionShell):
             raise TypeError("`cont_four` must be a `GeneralizedContractionShell` instance.")
 
-        # TODO: we can probably swap the contractions to get the optimal time or memory usage
+        # NOTE: the electron transfer recursion multiplies by (exps_a + exps_b) / (exps_c + exps_d)
+        # for every unit of angular momentum moved onto the second pair, which amplifies the
+        # rounding error when the first pair is much tighter than the second (e.g. core s functions
+        # against diffuse d or f functions). Since (ab|cd) = (cd|ab), evaluate the quartet in the
+        # orientation with the smaller amplification and swap the pairs back at the end.
+        amplification = (cont_three.angmom + cont_four.angmom) * np.log(
+            max(
+                1.0,
+                (np.max(cont_one.exps) + np.max(cont_two.exps))
+                / (np.min(cont_three.exps) + np.min(cont_four.exps)),
+            )
+        )
+        amplification_swapped = (cont_one.angmom + cont_two.angmom) * np.log(
+            max(
+                1.0,
+                (np.max(cont_three.exps) + np.max(cont_four.exps))
+                / (np.min(cont_one.exps) + np.min(cont_two.exps)),
+            )
+        )
+        swap_pairs = amplification_swapped < amplification
+        if swap_pairs:
+            cont_one, cont_two, cont_three, cont_four = cont_three, cont_four, cont_one, cont_two
+
         if cont_one.angmom == cont_two.angmom == cont_three.angmom == cont_four.angmom == 0:
             integrals = _compute_two_elec_integrals_angmom_zero(
                 cls.boys_func,
@@ -198,7 +220,8 @@ class ElectronRepulsionIntegral(BaseFourIndexSymmetric):
             )
         integrals = np.transpose(integrals, (4, 0, 5, 1, 6, 2, 7, 3))
 
-        # TODO: if we swap the contractions, we need to unswap them here
+        if swap_pairs:
+            integrals = np.transpose(integrals, (4, 5, 6, 7, 0, 1, 2, 3))
 
         return integrals
 
